@@ -25,7 +25,7 @@ META = {
     ],
     "bounds": {"quick": {"history_length": "<= 4 operations over 9 kinds (top-level driver), <= 5 (driver inside an instrumented "
                                                    "function); two generators of 2 yields each"},
-               "thorough": {"history_length": "<= 6"}},
+               "thorough": {"history_length": "<= 5 (top-level driver), <= 6 (enclosed driver)"}},
     "out_of_scope": ["dropping the last reference (garbage collection) -- only explicit close() is driven",
                      "more than two generators / one pair of overlays", "generators resumed from another thread"],
     "assumptions": ["transform executed natively", "each path runs in a copy of the context",
@@ -285,7 +285,7 @@ def build(case):
 
 def cases(tier, seed):
     th = tier == "thorough"
-    n = 6 if th else 4
+    n = 5 if th else 4
     cs = []
     for first in (1, 3, 4, 9):  # histories must start by entering the overlay, creating a generator or a plain call
         for second in range(10):
